@@ -59,6 +59,37 @@ pub struct StateWrapper<Msg, State> {
     wrapped_state: State,
 }
 
+/// Read-only access for verification harnesses (all fields of [`StateWrapper`] are private).
+#[cfg(getong_stateright_verif)]
+impl<Msg, State> StateWrapper<Msg, State> {
+    pub fn verif_wrapped_state(&self) -> &State {
+        &self.wrapped_state
+    }
+    pub fn verif_next_send_seq(&self) -> Sequencer {
+        self.next_send_seq
+    }
+    /// `(sequencer, destination, message)` sorted by sequencer.
+    pub fn verif_msgs_pending_ack(&self) -> Vec<(Sequencer, Id, &Msg)> {
+        let mut v: Vec<_> = self
+            .msgs_pending_ack
+            .iter()
+            .map(|(seq, (dst, msg))| (*seq, *dst, msg))
+            .collect();
+        v.sort_by_key(|e| e.0);
+        v
+    }
+    /// `(source, last delivered sequencer)` sorted by source.
+    pub fn verif_last_delivered_seqs(&self) -> Vec<(Id, Sequencer)> {
+        let mut v: Vec<_> = self
+            .last_delivered_seqs
+            .iter()
+            .map(|(src, seq)| (*src, *seq))
+            .collect();
+        v.sort();
+        v
+    }
+}
+
 /// Wrapper for timers.
 #[derive(Clone, Debug, Eq, Hash, PartialEq, Serialize)]
 pub enum TimerWrapper<Timer> {
